@@ -100,26 +100,31 @@ RepPatterns == << <<2000000000, 2000000001, 2000000002, 2000000003>>,   \* evenl
                   <<2000000000, 2000000001, 2000000003, 2000000004>>,   \* unevenly spaced from T = 3, such labels
                   <<100, 105, 110, 115>>,
                   <<0, 2, 4, 7>> >>                                     \* uneven only in the last difference (T = 4)
-NarrowInputs ==
-  { <<[T |-> T, N |-> N, rank |-> sh[1], dim |-> sh[2], ts |-> SubSeq(RepPatterns[p], 1, T),
-       val |-> MkValV(RepSets[v], T, N, sh[1], sh[2], 1000 * v + 10 * p + T)],
-      [cplx |-> 0, dt |-> Dts[1 + ((p + v) % 3)], fam |-> v, pat |-> p, tys |-> AllInt]>> :
-      T \in {1, 3, 4}, N \in {2, 3}, sh \in {<<0, 1>>, <<1, 2>>, <<1, 3>>, <<2, 2>>},
-      p \in 1..Len(RepPatterns), v \in 1..Len(RepSets) }
+\* index tuples <<"n", T, N, rank, dim, p, v>>: the (large) value arrays are built only for the tuples of the shard
+NarrowIdx == { <<"n", T, N, sh[1], sh[2], p, v>> :
+               T \in {1, 3, 4}, N \in {2, 3}, sh \in {<<0, 1>>, <<1, 2>>, <<1, 3>>, <<2, 2>>},
+               p \in 1..Len(RepPatterns), v \in 1..Len(RepSets) }
 \* wide series: many particles, few frames (size thresholds can be on N as well as on T)
 WideShapes == IF Tier = "quick"
-              THEN {<<0, 1, 600>>, <<0, 1, 2500>>, <<1, 2, 300>>, <<1, 3, 1200>>, <<2, 2, 200>>, <<2, 2, 700>>}
+              THEN {<<0, 1, 600>>, <<0, 1, 1300>>, <<1, 2, 300>>, <<1, 3, 1100>>, <<2, 2, 200>>, <<2, 2, 520>>}
               ELSE {<<0, 1, 600>>, <<0, 1, 2500>>, <<0, 1, 10007>>, <<1, 2, 300>>, <<1, 3, 1200>>, <<1, 2, 4099>>,
                     <<2, 2, 200>>, <<2, 2, 700>>, <<2, 3, 1030>>}
 WidePatterns == << <<0, 1, 2>>, <<0, 1, 3>> >>
 WideSets == << Flags, RealSet, GaussSet >>
-WideInputs ==
-  { <<[T |-> T, N |-> sh[3], rank |-> sh[1], dim |-> sh[2], ts |-> SubSeq(WidePatterns[p], 1, T),
-       val |-> MkValV(WideSets[v], T, sh[3], sh[1], sh[2], 7000 + 100 * v + 10 * p + T)],
-      [cplx |-> IF v = 3 THEN 1 ELSE 0, dt |-> Dts[1 + ((p + v) % 3)], fam |-> 100 + v, pat |-> p,
-       tys |-> AllInt]>> :
-      T \in {2, 3}, sh \in WideShapes, p \in 1..2, v \in 1..3 }
-RepInputs == NarrowInputs \cup WideInputs
+WideIdx == { <<"w", tp[1], sh[3], sh[1], sh[2], tp[2], v>> :
+             tp \in {<<2, 1>>, <<3, 1>>, <<3, 2>>}, sh \in WideShapes, v \in 1..3 }
+RepIdx == NarrowIdx \cup WideIdx
+RepKey(ix) == (ix[2] * 7 + ix[3] * 3 + ix[4] + ix[5] * 13 + ix[6] * 5 + ix[7] * 11) % NSHARDS
+RepInput(ix) ==
+  LET T == ix[2]  N == ix[3]  rank == ix[4]  dim == ix[5]  p == ix[6]  v == ix[7] IN
+  IF ix[1] = "n"
+  THEN <<[T |-> T, N |-> N, rank |-> rank, dim |-> dim, ts |-> SubSeq(RepPatterns[p], 1, T),
+          val |-> MkValV(RepSets[v], T, N, rank, dim, 1000 * v + 10 * p + T)],
+         [cplx |-> 0, dt |-> Dts[1 + ((p + v) % 3)], fam |-> v, pat |-> p, tys |-> AllInt]>>
+  ELSE <<[T |-> T, N |-> N, rank |-> rank, dim |-> dim, ts |-> SubSeq(WidePatterns[p], 1, T),
+          val |-> MkValV(WideSets[v], T, N, rank, dim, 7000 + 100 * v + 10 * p + T)],
+         [cplx |-> IF v = 3 THEN 1 ELSE 0, dt |-> Dts[1 + ((p + v) % 3)], fam |-> 100 + v, pat |-> p,
+          tys |-> AllInt]>>
 
 \* ---- long series: <<T, N, rank, dim, complex, spacing>> ----
 \* spacing 1: evenly spaced; 2: evenly spaced except the last difference; 3: differences growing (k^2)
@@ -142,7 +147,7 @@ LongInput(j) ==
      val |-> MkVal(q[1], q[2], q[3], q[4], q[5], 9000 + j)],
     [cplx |-> q[5], dt |-> Dts[1 + (j % 3)], fam |-> 200 + j, pat |-> q[6], tys |-> {"int8", "int16"}]>>
 
-Inputs == IF Part = "fam" THEN FamInputs ELSE IF Part = "exh" THEN ExhInputs ELSE RepInputs
+Inputs == IF Part = "fam" THEN FamInputs ELSE ExhInputs
 
 \* shard key from the data itself
 Key(x) == LET ser == x[1] IN
@@ -156,6 +161,12 @@ Init == IF Long
                /\ s = LongInput(j)[1] /\ aux = LongInput(j)[2]
                /\ Defined(s)
                /\ st = StDirect(s)          \* the T (T + 1) / 2 loop steps are not enumerated for long series
+        ELSE IF Part = "rep"
+        THEN \E ix \in RepIdx :
+               /\ RepKey(ix) = SHARD
+               /\ s = RepInput(ix)[1] /\ aux = RepInput(ix)[2]
+               /\ Defined(s)
+               /\ st = StInit(s)
         ELSE /\ \E x \in Inputs : /\ Key(x) = SHARD
                                   /\ s = x[1] /\ aux = x[2]
                                   /\ Defined(x[1])
@@ -171,7 +182,7 @@ InvCounts    == CountsPerLag(s, st)
 InvPairs     == Long \/ PairsAreDefinition(s, st)
 InvAlgDef    == Long \/ AlgorithmEqualsDefinition(s, st)      \* long series: st IS the definition (StDirect)
 InvLagZero   == LagZeroIsOne(s, st)
-InvConjSym   == Long \/ ConjugateSymmetric(s)
+InvConjSym   == Long \/ s.N > 100 \/ ConjugateSymmetric(s)   \* a per-particle identity: checked on the narrow series
 InvSingle    == SingleFrame(s)
 InvLogOrigin == LogIsOriginZero(s)
 InvKind      == (Kind(s.ts) = "linear") <=> (\A k \in 1..(s.T - 1) : s.ts[k + 1] - s.ts[k] = s.ts[2] - s.ts[1])
